@@ -59,6 +59,7 @@ inductive Obs
   | pr (node : Nat) (path : Bytes)              -- Handler::process entered
   | slot (name : Nat) (avail : Nat)             -- a registered slot was invoked
   | ev (k : Nat)                                -- marker: the k-th external event starts here
+  | misc (tag : Nat) (data : Bytes)             -- family-specific observation (upstream bytes, copier signals, ...)
 deriving DecidableEq, Repr, Inhabited
 
 /-- QUrl as a parameter: `none` = `!isValid()`, else (path(), query items) in UTF-8 -/
@@ -78,15 +79,8 @@ inductive ApiOp
   | redir (path : Bytes) (permanent : Bool)
   | json (body : Bytes) (code : Int)
   | close
+  | note (o : Obs)             -- application code records an observation (routing, slots)
 deriving DecidableEq, Repr, Inhabited
-
-structure App where
-  onHp  : List ApiOp := []
-  onRr  : List ApiOp := []
-  onRcf : List ApiOp := []
-  onBw  : List ApiOp := []
-  onDc  : List ApiOp := []
-deriving Repr, Inhabited
 
 structure Sock where
   tcp         : Tcp := {}
@@ -113,6 +107,18 @@ structure Sock where
   alive       : Bool := true
   log         : List Obs := []
 deriving Repr, Inhabited
+
+/-- the application: for each signal, the API calls its slot makes, as a function of the state
+    the socket is in when the signal is emitted (this is how routing, which looks at the parsed
+    request, and handlers that test `bytesAvailable()` are expressed) -/
+structure App where
+  onHp  : Sock → List ApiOp := fun _ => []
+  onRr  : Sock → List ApiOp := fun _ => []
+  onRcf : Sock → List ApiOp := fun _ => []
+  onBw  : Sock → List ApiOp := fun _ => []
+  onDc  : Sock → List ApiOp := fun _ => []
+
+instance : Inhabited App := ⟨{}⟩
 
 def statusReason (code : Int) : Bytes :=
   if code = 200 then lit ['O','K']
@@ -276,13 +282,14 @@ def apiPrim (env : Env) (s : Sock) (op : ApiOp) : Sock :=
   | .redir p pm => writeRedirect s p pm
   | .json bd c  => writeJson s bd c
   | .close      => close s
+  | .note o     => { s with log := s.log ++ [o] }
 
 /-- `disconnected` is being emitted: `Socket::disconnected` first (connected in the private
     constructor), then `deleteLater` if `Socket::close` had connected it before this emission. -/
 def emitDc (env : Env) (app : App) (s : Sock) : Sock :=
   let hadClose := s.closeCalled
   let s := { s with dcFlag := false, log := s.log ++ [Obs.dc] }
-  let s := app.onDc.foldl (apiPrim env) s
+  let s := (app.onDc s).foldl (apiPrim env) s
   { s with dcFlag := false, delPending := s.delPending || hadClose }
 
 def api (env : Env) (app : App) (s : Sock) (op : ApiOp) : Sock :=
@@ -330,15 +337,15 @@ def readHeaders (env : Env) (app : App) (s : Sock) : Sock × Bool :=
                             readBuffer := if t ≥ 0 && (s.readBuffer.length : Int) > t
                                           then s.readBuffer.take t.toNat else s.readBuffer }
                  else s
-        (emit env app s .hp app.onHp, true)
+        (emit env app s .hp (app.onHp s), true)
 
 /-- `SocketPrivate::readData` -/
 def readDataSlot (env : Env) (app : App) (s : Sock) : Sock :=
   let s := if s.total ≥ 0 && s.dataRead + s.readBuffer.length > s.total
            then { s with readBuffer := s.readBuffer.take (s.total - s.dataRead).toNat } else s
-  let s := if s.readBuffer.length != 0 then emit env app s .rr app.onRr else s
+  let s := if s.readBuffer.length != 0 then emit env app s .rr (app.onRr s) else s
   if s.total != -1 && s.dataRead + s.readBuffer.length ≥ s.total then
-    emit env app { s with rs := .finished } .rcf app.onRcf
+    (let s := { s with rs := .finished }; emit env app s .rcf (app.onRcf s))
   else s
 
 /-- `SocketPrivate::onReadyRead` -/
@@ -363,11 +370,11 @@ def onBytesWritten (env : Env) (app : App) (s : Sock) (bytes : Int) : Sock :=
       if s.hdrRemaining - bytes > 0 then ({ s with hdrRemaining := s.hdrRemaining - bytes }, bytes)
       else ({ s with ws := .data }, bytes - s.hdrRemaining)
     else (s, bytes)
-  if s.ws = .data then emit env app s (.bw bytes) app.onBw else s
+  if s.ws = .data then emit env app s (.bw bytes) (app.onBw s) else s
 
 /-- `SocketPrivate::onReadChannelFinished` -/
 def onReadChannelFinished (env : Env) (app : App) (s : Sock) : Sock :=
-  if s.total = -1 then emit env app s .rcf app.onRcf else s
+  if s.total = -1 then emit env app s .rcf (app.onRcf s) else s
 
 end Sock
 
@@ -429,7 +436,19 @@ end Sock
 structure Scenario where
   app    : App := {}
   events : List Event := []
+
+/-- scripted application: fixed call lists per signal (what the `sock` scenario language can say) -/
+structure Script where
+  onHp  : List ApiOp := []
+  onRr  : List ApiOp := []
+  onRcf : List ApiOp := []
+  onBw  : List ApiOp := []
+  onDc  : List ApiOp := []
 deriving Repr, Inhabited
+
+def Script.app (sc : Script) : App :=
+  { onHp := fun _ => sc.onHp, onRr := fun _ => sc.onRr, onRcf := fun _ => sc.onRcf,
+    onBw := fun _ => sc.onBw, onDc := fun _ => sc.onDc }
 
 namespace Scenario
 /-- all bytes the client sent, in order -/
